@@ -73,9 +73,10 @@ def ref_eq_args(cfg, fs, cols):
     return fs + cols
 
 
-def ref_residuals(cfg, args):
+def ref_residuals(cfg, args, k=None):
     n = len(args[0])
-    return [[sum(F(PRIMES[8 * e + pos]) * args[pos][r] for pos in range(len(args))) for r in range(n)]
+    extra = F(59) * F(k) if k is not None else F(0)          # a learnable coefficient inside the equations
+    return [[sum(F(PRIMES[8 * e + pos]) * args[pos][r] for pos in range(len(args))) + extra for r in range(n)]
             for e in range(cfg['neq'])]
 
 
@@ -101,7 +102,7 @@ def ref_loss_from(cfg, lid, res, fs, cols):
 def ref_loss(cfg, lid, conds, w, batch):
     cols = [[F(x) for x in c] for c in batch]
     fs = ref_funcs(cfg, conds, w, cols)
-    res = ref_residuals(cfg, ref_eq_args(cfg, fs, cols))
+    res = ref_residuals(cfg, ref_eq_args(cfg, fs, cols), w[-1] if cfg.get('extra_k') else None)
     return ref_loss_from(cfg, lid, res, fs, cols)
 
 
@@ -398,9 +399,18 @@ def build_optimizer(spec, params, log, rec=None):
     return opt
 
 
-def make_loss(lid, spec_form, log):
-    """lid 0,1,2: callables;  lid 3: None / 'l2' / MSELoss object (spec_form chooses)"""
+def make_loss(lid, spec_form, log, script=None):
+    """lid 0,1,2: callables;  lid 3: None / 'l2' / MSELoss object (spec_form chooses);  lid 5: a callable returning SCRIPTED
+    float64 values, one per call (to drive best-model tracking with improvements of any relative size, down to 1 ulp)"""
     torch = _torch()
+    if lid == 5:
+        state = {'k': 0}
+
+        def scripted(r, f, x):
+            v = script[state['k'] % len(script)]
+            state['k'] += 1
+            return r.sum() * 0 + torch.tensor(float(v), dtype=torch.float64)
+        return scripted
     if lid == 3:
         return {'none': None, 'name': 'l2', 'obj': torch.nn.MSELoss()}[spec_form]
     if lid == 4:     # inexact family, event trace + tolerance only
@@ -439,6 +449,8 @@ class Runner:
         cfg = sc['cfg']
         self.nets_u = [comp['ToyNet'](w, k) for w, k in zip(sc['w0'], cfg['kappa'])]
         nets = [self.nets_u[k] for k in cfg['netof']]
+        import torch.nn as _nn
+        self.kparam = _nn.Parameter(torch.tensor(float(sc['extra_k']))) if cfg.get('extra_k') else None
         self.conds = []
         for c in sc['conds']:
             cname = COND_KINDS[c['kind']][0]
@@ -451,14 +463,16 @@ class Runner:
         def eqs(*args):
             if runner.in_residuals:          # called by get_residuals, not by an epoch
                 n_eq = cfg['neq']
-                return [sum(PRIMES[8 * e + pos] * a for pos, a in enumerate(args)) for e in range(n_eq)]
+                return [sum(PRIMES[8 * e + pos] * a for pos, a in enumerate(args)) + (59 * runner.kparam if runner.kparam is not None else 0)
+                        for e in range(n_eq)]
             ph, k = runner.rec['last_draw']
             runner.log.append(('eval', ph, k))
             runner.rec['evals'].append({'phase': ph, 'k': k, 'nargs': len(args), 'w': runner.weights(),
                                         'args': [[float(v) for v in a.detach().reshape(-1)] for a in args],
                                         'shapes': [tuple(a.shape) for a in args]})
             n_eq = cfg['neq']
-            return [sum(PRIMES[8 * e + pos] * a for pos, a in enumerate(args)) for e in range(n_eq)]
+            return [sum(PRIMES[8 * e + pos] * a for pos, a in enumerate(args)) + (59 * runner.kparam if runner.kparam is not None else 0)
+                    for e in range(n_eq)]
         self.eqs = eqs
 
         def mk_metric(i):
@@ -476,10 +490,10 @@ class Runner:
                 return v
             return metric
         metrics = {f'm{i}': mk_metric(i) for i in range(sc['nmetrics'])}
-        params = [n.w for n in self.nets_u]
+        params = [n.w for n in self.nets_u] + ([self.kparam] if self.kparam is not None else [])
         self.params = params
         opt = build_optimizer(sc['opt'], params, self.log, self.rec)
-        loss = make_loss(sc['lid'], sc.get('loss_form', 'none'), self.log)
+        loss = make_loss(sc['lid'], sc.get('loss_form', 'none'), self.log, sc.get('loss_script'))
         base = {'Generic': S.GenericSolver, 'S1D': S.Solver1D, 'Bundle': S.BundleSolver1D, 'S2D': S.Solver2D,
                 'Spherical': S.SolverSpherical}[cfg['cls']]
         if cfg['ext']:
@@ -687,10 +701,26 @@ class Runner:
             elif k in ('eval', 'residuals'):
                 shapes = [tuple(s) for s in op.get('shapes', [op['shape']] * len(op['coords']))]
                 arrs = [np.array([float(x) for x in c], dtype=np.float64).reshape(sh) for c, sh in zip(op['coords'], shapes)]
+                lay = op.get('layout', 'contig')
+
+                def relayout(a):
+                    """the same logical array in a non-contiguous memory layout (rank-2 only)"""
+                    if a.ndim != 2 or lay == 'contig':
+                        return a
+                    if lay == 'transpose':
+                        return np.ascontiguousarray(a.T).T                 # Fortran order
+                    big = np.zeros((a.shape[0], 2 * a.shape[1]))
+                    big[:, ::2] = a
+                    return big[:, ::2]                                      # strided view
                 if op['as'] == 'tensor':
-                    args = [torch.tensor(a) for a in arrs]
+                    if lay == 'contig':
+                        args = [torch.tensor(a) for a in arrs]
+                    elif lay == 'transpose':
+                        args = [torch.tensor(np.ascontiguousarray(a.T)).T if a.ndim == 2 else torch.tensor(a) for a in arrs]
+                    else:
+                        args = [torch.from_numpy(np.ascontiguousarray(relayout(a).base))[:, ::2] if a.ndim == 2 else torch.tensor(a) for a in arrs]
                 else:
-                    args = arrs
+                    args = [relayout(a) for a in arrs]
                 rec = {'op': oi, 'kind': k}
                 try:
                     with warnings.catch_warnings():
@@ -1167,7 +1197,7 @@ def gen_action(r, sc, kinds):
 def gen_scenario(r, classes=CLASSES, opt_kinds=('sgd', 'script'), n_fits=(1, 4), max_epochs=(0, 6), nmetrics=(0, 2),
                  nbt=(1, 3), nbv=(0, 3), lids=(0, 1), cb_actions=('stop',), between_actions=(), sol_ops=False,
                  tie=False, variadic_spherical=True, max_total_epochs=None, recorder=True, dup_callbacks=False,
-                 metric_special=False):
+                 metric_special=False, ragged=False):
     cls = r.choice(list(classes))
     ntheta = r.randint(0, 3) if cls == 'Bundle' else 0
     ncoords = NCOORDS.get(cls) or (1 + ntheta if cls == 'Bundle' else r.randint(1, 3))
@@ -1193,8 +1223,12 @@ def gen_scenario(r, classes=CLASSES, opt_kinds=('sgd', 'script'), n_fits=(1, 4),
         npts = r.randint(1, 2)        # mean over n_points * n_eq entries: keep the divisor a power of two (exact in binary)
     if lid >= 2:
         max_total_epochs = 2 if max_total_epochs is None else min(2, max_total_epochs)
-    pool_t = [gen_batch(r, ncoords, npts) for _ in range(r.randint(2, 4))]
-    pool_v = [gen_batch(r, ncoords, npts) for _ in range(r.randint(1, 3))]
+    if ragged:      # batches of DIFFERENT sizes inside one epoch (variable-size generators such as FilterGenerator)
+        pool_t = [gen_batch(r, ncoords, r.randint(1, 4)) for _ in range(r.randint(3, 5))]
+        pool_v = [gen_batch(r, ncoords, r.randint(1, 4)) for _ in range(r.randint(2, 4))]
+    else:
+        pool_t = [gen_batch(r, ncoords, npts) for _ in range(r.randint(2, 4))]
+        pool_v = [gen_batch(r, ncoords, npts) for _ in range(r.randint(1, 3))]
     if tie:
         trunc = cls == 'Spherical'
         pool_v = [gen_batch(r, ncoords, npts, neutral=True, truncating=trunc) for _ in range(r.randint(1, 3))]
@@ -1276,6 +1310,8 @@ def gen_eval_op(r, sc, nsol):
     coords = [[r.randint(-3, 3) for _ in range(n)] for _ in range(sc['ncoords'])]
     base = {'shape': shape, 'coords': coords, 'as': r.choice(['tensor', 'ndarray']), 'to_numpy': r.random() < 0.4,
             'no_reshape': r.random() < 0.25}
+    if len(shape) == 2 and r.random() < 0.5:
+        base['layout'] = r.choice(['transpose', 'stride'])       # non-contiguous views (like meshgrid outputs, .T, [::2])
     if sc['ncoords'] > 1 and r.random() < 0.35:
         # same number of points, different shapes: the result must take the shape of the FIRST coordinate
         base['shapes'] = [shape] + [r.choice([[n], [n, 1], [a, b]]) for _ in range(sc['ncoords'] - 1)]
